@@ -1,10 +1,10 @@
 # executed by gen_manifest.py
 claim("C09", "DESIGN.md 3/C09",
-      "every series of length 1..5 (thorough 7) over a 5-symbol alphabet x both methods x 36 threshold pairs is run on the real spike_test and compared per point with a scalar reference; complete inside the bound, silent outside it",
+      "every series of length 1..5 (thorough 7) over a 5-symbol alphabet x both methods x 36 threshold pairs is run on the real spike_test and compared per point with a scalar reference; complete inside the bound, silent outside it; plus two long de Bruijn series (every length-4 window) and float32/float16 carriers at 2^24 / 2^11",
       "trusts the scalar reference model (refmodel/qc.py), numpy carriers built by the harness; values are region representatives (dyadic), lengths <= bound",
       TECH_TREE)
 claim("C03", "DESIGN.md 3/C03",
-      "all 272 (fail,suspect) span pairs over {0..3} and all 25 valid spans x 5 inclusivity settings are run on a product series with a value below/on/between/above every bound (3 orders) and on every series of length<=2 (thorough 3), numeric and datetime64; each call compared per point with the scalar reference",
+      "all 272 (fail,suspect) span pairs over {0..3} and all 25 valid spans x 5 inclusivity settings are run on a product series with a value below/on/between/above every bound (3 orders) and on every series of length<=2 (thorough 3), numeric and datetime64; each call compared per point with the scalar reference; float32/float16 data vs non-dyadic limits; 2-D inputs in C/Fortran/transposed layout",
       "region abstraction: one representative per order region of every comparison; trusts refmodel/qc.py",
       TECH_TREE)
 claim("C08", "DESIGN.md 3/C08",
@@ -32,7 +32,7 @@ claim("C14", "DESIGN.md 3/C14",
       "trusts geographiclib as the distance oracle (explicit lat/lon per pair)",
       TECH_TREE)
 claim("C04", "DESIGN.md 3/C04",
-      "event graph over histories of flag vectors: every sequence of <=3 vectors (length<=2, entries over flags / non-flags / masked-with-adversarial-data) through qartod_compare, aggregate() and PandasStore.compute_aggregate()+save(), every split re-folded; each history compared with an order-free per-position reference, which decides commutativity, idempotence and associativity inside the bound",
+      "event graph over histories of flag vectors: every sequence of <=3 vectors (length<=2, entries over flags / non-flags / masked-with-adversarial-data) through qartod_compare, aggregate() and PandasStore.compute_aggregate()+save(), every split re-folded; each history compared with an order-free per-position reference, which decides commutativity, idempotence and associativity inside the bound; wide-dtype carriers with non-flag values that alias flags when narrowed; every 2-3 call sequence of roll-ups (state between calls)",
       "vectors of length<=2 (thorough 3), <=3 (thorough 4) vectors; trusts refmodel/qc.py aggregate()",
       TECH_GRAPH)
 claim("C01", "DESIGN.md 3/C01",
@@ -56,7 +56,7 @@ claim("C17", "DESIGN.md 3/C17",
       "metamorphic (no reference model); dyadic values so transformations are exact; std cases within 1e-6 of a threshold skipped",
       TECH_TREE + " + metamorphic relation check between pairs of explored states")
 claim("C05", "DESIGN.md 3/C05",
-      "configs-as-programs x tables x 9 front-end variants: tables of 1..4 rows (thorough 0..6) with/without z and lat/lon, one-context programs with every window over a grid that puts rows exactly on starting and on ending (closed, half-open, empty, inverted), two-context programs over every ordered pair of coarse windows, 1-2 streams, probe / neighbour- / time- / depth- / position-dependent tests; every configured (context, stream, test) must yield exactly one result with the reference row mask and the flags of the direct call on those rows (the probe also checks the arguments it received)",
+      "configs-as-programs x tables x 9 front-end variants: tables of 1..4 rows (thorough 0..6) with/without z and lat/lon, one-context programs with every window over a grid that puts rows exactly on starting and on ending (closed, half-open, empty, inverted), two-context programs over every ordered pair of coarse windows, 1-2 streams, probe / neighbour- / time- / depth- / position-dependent tests; every configured (context, stream, test) must yield exactly one result with the reference row mask and the flags of the direct call on those rows (the probe also checks the arguments it received); three-context programs A,B,A; tables with shuffled and missing (NaT) times; a test on the depth column itself; Config-reuse histories",
       "reference = the real test function called directly (refinement statement); XarrayStream with time as a non-coordinate variable ignores windows (known finding, 4 signatures); region subsetting not judged",
       TECH_TREE)
 claim("C06", "DESIGN.md 3/C06",
@@ -64,18 +64,18 @@ claim("C06", "DESIGN.md 3/C06",
       "4 rows (thorough 5); data/axis values on uncovered rows not judged",
       TECH_GRAPH)
 claim("C07", "DESIGN.md 3/C07",
-      "2276 abstract configs from a bounded grammar (1-2 contexts, 1-2 streams, every subset of <=2 entries of an 8-entry test menu incl. unknown test/module, windows, GeoJSON regions; thorough: subsets of <=3) are rendered in every expressible layout (4) and carrier (13: dict, OrderedDict, YAML/JSON text, StringIO, str/Path files, xarray global attribute, per-variable attributes; thorough + NetCDF file) and loaded by the real Config; calls/contexts/Call.config() must equal the call set computed from the abstract config",
+      "2276 abstract configs from a bounded grammar (1-2 contexts, 1-2 streams, every subset of <=2 entries of an 8-entry test menu incl. unknown test/module, windows, GeoJSON regions; thorough: subsets of <=3) are rendered in every expressible layout (4) and carrier (13: dict, OrderedDict, YAML/JSON text, StringIO, str/Path files, xarray global attribute, per-variable attributes; thorough + NetCDF file) and loaded by the real Config; calls/contexts/Call.config() must equal the call set computed from the abstract config; double load of the same source object; load histories rewriting one file path; cross-module test names",
       "harness renderings are self-checked for round trip; shapely builds the expected region; parameters that are themselves mappings not generated",
       TECH_TREE)
 claim("C18", "DESIGN.md 3/C18",
-      "fault enumeration: configs with 1-2 healthy tests and every placement of 1-2 (thorough 3) failing entries from 8 fault kinds (unknown module/test, rejected parameters, missing required input, raising function, aggregate entry, absent stream id) - in the same stream in every order, in another stream, in another context with/without a window - on 9 front-end variants, collected as list and dict; the run must complete, failing entries contribute nothing, every healthy result equals the result of the configuration containing only that entry",
+      "fault enumeration: configs with 1-2 healthy tests and every placement of 1-2 (thorough 3) failing entries from 8 fault kinds (unknown module/test, rejected parameters, missing required input, raising function, aggregate entry, absent stream id) - in the same stream in every order, in another stream, in another context with/without a window - on 9 front-end variants, collected as list and dict; the run must complete, failing entries contribute nothing, every healthy result equals the result of the configuration containing only that entry; also NumpyStream with a dict input and no time axis, XarrayStream with a second variable on another dimension, two adjacent absent entries",
       "differential oracle on the same front end; 4 rows (thorough 3-5); absent stream ids not judged on array-input front ends",
       "exhaustive enumeration of fault placements (explicit-state, bounded) executing the real stream/config/collector code")
 claim("C19", "DESIGN.md 3/C19",
-      "189 stream runs (every set of 1-2 stream ids incl. CF-unsafe ones x test subsets x 3 window layouts) x every save variant (write_data x write_axes, include/exclude over every list of <=2 items of stream ids / test names / functions, single-item include x exclude pairs) with and without compute_aggregate: rows, column set, CF-safe names, values with NaN where unevaluated, axis/data columns, filter semantics and the roll-up column are compared with a reference frame; cf_safe_name on every string of length<=3 over 9 characters",
+      "189 stream runs (every set of 1-2 stream ids incl. CF-unsafe ones x test subsets x 3 window layouts) x every save variant (write_data x write_axes, include/exclude over every list of <=2 items of stream ids / test names / functions, single-item include x exclude pairs) with and without compute_aggregate: rows, column set, CF-safe names, values with NaN where unevaluated, axis/data columns, filter semantics and the roll-up column are compared with a reference frame; cf_safe_name on every string of length<=3 over 9 characters; context layout 'partial then all-covering', a save before compute_aggregate, a non-qartod test (axds.valid_range_test)",
       "tables always have all axes; frames with no column and colliding sanitised ids not judged; roll-up judged without filters",
       TECH_TREE)
 claim("C20", "DESIGN.md 3/C20",
-      "(a) every expression tree of depth<=2 (thorough 3) over numbers/statistics/+-*/ /unary minus in minimal and fully parenthesised form x 3 statistics tuples through the real eval_fx vs python operator evaluation; (b) event graph: every evaluation history of depth<=3 (thorough 4) over 8 valid and 5 failing expressions on the real module-level parser stack - every valid expression evaluates in every state to its empty-history value; (c) every token string of length<=3 over 16 tokens through QcVariableConfig; (d) QcConfigCreator on synthetic time-constant NetCDF-3 climatologies: 4 cell patterns x 2-d/3-d x every index-aligned box x 4 date ranges x 3 expression sets",
+      "(a) every expression tree of depth<=2 (thorough 3) over numbers/statistics/+-*/ /unary minus in minimal and fully parenthesised form x 3 statistics tuples through the real eval_fx vs python operator evaluation; (b) event graph: every evaluation history of depth<=3 (thorough 4) over 8 valid and 5 failing expressions on the real module-level parser stack - every valid expression evaluates in every state to its empty-history value; (c) every token string of length<=3 over 16 tokens through QcVariableConfig; (d) QcConfigCreator on synthetic time-constant NetCDF-3 climatologies: 4 cell patterns x 2-d/3-d x every index-aligned box x 4 date ranges x 3 expression sets; validator also with 2-3 tests sharing limit names and with the empty token; request histories on one creator",
       "division-by-zero expressions and full-year date ranges not judged; tolerance 1e-12 / 1e-9",
       TECH_TREE + "; " + TECH_GRAPH)
